@@ -59,6 +59,16 @@ async def any_work_async(x):
     return ('w', type(x).__name__, repr(x)[:40])
 
 
+def kw_work(x, **kw):
+    """A worker function whose keyword arguments happen to be named like things the library uses internally."""
+    return ('kw', x, tuple(sorted(kw.items())))
+
+
+async def kw_work_async(x, **kw):
+    await asyncio.sleep(0)
+    return ('kw', x, tuple(sorted(kw.items())))
+
+
 def proc_work_kw(x, *, tag='t'):
     token, dur, fail = x
     if dur:
